@@ -1,5 +1,9 @@
 import ObiVerif.Lemmas.PEAlign
 import ObiVerif.Lemmas.PECons
+import ObiVerif.Lemmas.PEFast
+import ObiVerif.Lemmas.PEFillV
+import ObiVerif.Lemmas.PEVote
+import ObiVerif.Lemmas.PERows
 /-!
 # C08 — paired-end assembly: valid path, optimal score, correct consensus (property theorems)
 
@@ -127,6 +131,109 @@ theorem fast_path_consumes_unpatched_false :
 
 example : VoteInRange 40 40 20 7 := by unfold VoteInRange; omega
 
+/-- **fast mode, score** (was: oracle only).  For every vote result in range, every delta: the reported
+score equals the score recomputed along the **extended** path under the end-gap-free scheme of the
+**whole** reads named by `isLeft` — the *left* scheme when the vote shift is positive (the local fill is
+`_FillMatrixPeLeftAlign` on `A[startA:]`, `B[:partLen]`; the prepended bases of A come before B starts and
+the appended bases of B after A ended, both free under the left scheme), the *right* scheme otherwise.
+Holds for the DP branch and for the "identical overlap" branch (`C08-fast-identical-score`). -/
+theorem fast_score_is_path (s : Nat → Nat → Int) (g : Int) (la lb delta : Nat) (shift count : Int)
+    (hla : 0 < la) (hlb : 0 < lb) (hv : VoteInRange la lb shift count) :
+    ∃ r, peAlignFastFrom s g la lb delta shift count = some r ∧ consumes r.path la lb ∧
+      r.isLeft = decide (shift > 0) ∧
+      r.score = (if r.isLeft then scoreOf s (cALeft g) (cBLeft g la) r.path
+                 else scoreOf s (cARight g lb) (cBRight g) r.path) := by
+  obtain ⟨r, h, hc⟩ := fastFrom_consumes s g la lb delta shift count hla hlb hv.1 hv.2.1 hv.2.2
+  obtain ⟨r', h', hl, hs⟩ := fastFrom_score s g la lb delta shift count hla hlb hv.1 hv.2.1 hv.2.2
+  have : r' = r := by rw [h] at h'; exact (Option.some.inj h').symm
+  subst this
+  refine ⟨r', h, hc, hl, ?_⟩
+  rw [hs, hl]
+  by_cases hp : shift > 0 <;> simp [hp]
+
+
+/-- non-vacuity (test on one input): two reads of 6 bases, vote (shift 2, count 1): DP branch, delta 1 -/
+example :
+    let s := fun i j => if (([1, 2, 3, 4, 1, 2] : List Nat).getD i 0) = (([3, 4, 1, 3, 2, 2] : List Nat).getD j 9) then (2 : Int) else -1
+    (peAlignFastFrom s (-3) 6 6 1 2 1).map (fun r => (r.isLeft, r.score, r.path, scoreOf s (cALeft (-3)) (cBLeft (-3) 6) r.path))
+      = some (true, 5, [-2, 4, 2, 0], 5) := by decide
+
+/-! ## the 4-mer vote (`Encode4mer`, `Index4mer`, `FastShiftFourMer`) -/
+
+/-- **the vote is in range** (was: hypothesis checked through the correspondence only): for all non-empty
+reads the pair (shift, count) computed by the model of `FastShiftFourMer` satisfies `VoteInRange` -/
+theorem vote_in_range (rel : Bool) (a b : Bytes) (ha : 0 < a.length) (hb : 0 < b.length) :
+    VoteInRange a.length b.length (fastShift rel a b).shift (fastShift rel a b).count := by
+  obtain ⟨h1, h2, _, h4⟩ := fastShift_inRange rel a b ha hb
+  exact ⟨h1, h2, h4⟩
+
+/-- **the vote does not depend on the iteration order of the Go map**: the selection loop
+`if score > maxscore {…} else if score == maxscore && shift < maxshift {…}` computes the maximum of the
+total order (score, then smaller shift) over entries with pairwise distinct shifts.  Any enumeration `l'`
+of the map (a permutation of the entry list) gives the same (shift, count, score). -/
+theorem vote_order_independent (rel : Bool) (a b : Bytes) (l' : List (Int × Nat))
+    (h : (shiftCounts (encode4mer a) (encode4mer b)).Perm l') :
+    l'.foldl (voteStep rel a.length b.length) ⟨0, 0, -1, 1⟩ = fastShift rel a b :=
+  fastShift_order_independent rel a b l' h
+
+/-- what the vote returns: the entry of the map with the best score, the smallest shift among the entries
+with that score (scores `count/den` compared exactly by cross-multiplication; `den = 1` in absolute mode) -/
+theorem vote_is_best (rel : Bool) (a b : Bytes) (hne : shiftCounts (encode4mer a) (encode4mer b) ≠ []) :
+    ∃ e ∈ shiftCounts (encode4mer a) (encode4mer b),
+      fastShift rel a b = ⟨e.1, e.2, e.2, voteDen rel a.length b.length e.1⟩ ∧
+      ∀ e' ∈ shiftCounts (encode4mer a) (encode4mer b),
+        (e'.2 : Int) * voteDen rel a.length b.length e.1 ≤ (e.2 : Int) * voteDen rel a.length b.length e'.1 ∧
+        ((e'.2 : Int) * voteDen rel a.length b.length e.1 = (e.2 : Int) * voteDen rel a.length b.length e'.1 → e.1 ≤ e'.1) :=
+  (voteFold_spec rel a.length b.length _ (fastShift_hyps rel a b)).2 hne
+
+/-- **fast mode end to end** (vote + local fill + extension): never a panic on non-empty reads, the path
+consumes both reads, the score is the score of that path under the scheme named by `isLeft` -/
+theorem pealign_fast (s : Nat → Nat → Int) (g : Int) (rel : Bool) (a b : Bytes) (delta : Nat)
+    (ha : 0 < a.length) (hb : 0 < b.length) :
+    ∃ r, peAlignFastFrom s g a.length b.length delta (fastShift rel a b).shift (fastShift rel a b).count = some r ∧
+      consumes r.path a.length b.length ∧
+      r.score = (if r.isLeft then scoreOf s (cALeft g) (cBLeft g a.length) r.path
+                 else scoreOf s (cARight g b.length) (cBRight g) r.path) := by
+  obtain ⟨r, h, hc, _, hs⟩ := fast_score_is_path s g a.length b.length delta _ _ ha hb (vote_in_range rel a b ha hb)
+  exact ⟨r, h, hc, hs⟩
+
+
+/-- test on one input: "acgtacgt" against "gtacgtaa": 4-mers acgt,cgta,gtac,tacg,acgt / gtac,tacg,acgt,cgta,gtaa;
+best diagonal: shift 2 with 3 matching 4-mers (relative score 3/3; the other diagonal −2 has 2) -/
+example : fastShift true [97, 99, 103, 116, 97, 99, 103, 116] [103, 116, 97, 99, 103, 116, 97, 97] = ⟨2, 3, 3, 3⟩ := by decide
+
+/-! ## the fills as loop nests over the flat arena matrices -/
+
+/-- **refinement of the verbatim fills** (was: "modelled as one recurrence rather than as two loop nests").
+`fillLeftA` / `fillRightA` are `_FillMatrixPeLeftAlign` / `_FillMatrixPeRightAlign` transcribed statement
+by statement over the flat column-major matrices (`_SetMatrices`, `_GetMatrix`, `_GetMatrixFrom` index
+arithmetic, special first row / column, special last line / column) followed by `_Backtracking` reading
+the flat path matrix.  For **every** previous content of the arena (stale matrices of any size) they
+return exactly the score and path of `fillLeft` / `fillRight`; hence `backtrack_consumes`,
+`fill_score_is_path`, `fill_optimal` hold for the loop nests. -/
+theorem fills_verbatim_refine (s : Nat → Nat → Int) (g : Int) (la lb : Nat) (m0 : Mats) (hla : 0 < la) (hlb : 0 < lb) :
+    (fillLeftA s g la lb m0).map (·.1) = fillLeft s g la lb ∧
+    (fillRightA s g la lb m0).map (·.1) = fillRight s g la lb ∧
+    (peAlignExactA s g la lb m0).map (·.1) = peAlignExact s g la lb :=
+  ⟨fillLeftA_eq s g la lb m0 hla hlb, fillRightA_eq s g la lb m0 hla hlb, peAlignExactA_eq s g la lb m0 hla hlb⟩
+
+/-- the optimality theorem transferred to the loop nests: the score left in the corner of the flat
+matrix by the verbatim left fill is the optimum of the left scheme, whatever the arena held before -/
+theorem fillLeftV_optimal (s : Nat → Nat → Int) (g : Int) (la lb : Nat) (m0 : Mats) (hla : 0 < la) (hlb : 0 < lb) :
+    ∃ sc m, fillLeftV s g la lb m0 = some (sc, m) ∧
+      (∀ p, consumes p la lb → scoreOf s (cALeft g) (cBLeft g la) p ≤ sc) ∧
+      m.sm.size = (la + 1) * (lb + 1) ∧ m.pm.size = (la + 1) * (lb + 1) := by
+  obtain ⟨m, h, hg⟩ := fillLeftV_ok s g la lb m0 hla hlb
+  exact ⟨_, m, h, fun p hp => fill_optimal_cells s _ _ la lb p hp, hg.szS, hg.szP⟩
+
+theorem fillRightV_optimal (s : Nat → Nat → Int) (g : Int) (la lb : Nat) (m0 : Mats) (hla : 0 < la) (hlb : 0 < lb) :
+    ∃ sc m, fillRightV s g la lb m0 = some (sc, m) ∧
+      (∀ p, consumes p la lb → scoreOf s (cARight g lb) (cBRight g) p ≤ sc) ∧
+      m.sm.size = (la + 1) * (lb + 1) ∧ m.pm.size = (la + 1) * (lb + 1) := by
+  obtain ⟨m, h, hg⟩ := fillRightV_ok s g la lb m0 hla hlb
+  exact ⟨_, m, h, fun p hp => fill_optimal_cells s _ _ la lb p hp, hg.szS, hg.szP⟩
+
+
 /-! ## consensus -/
 
 /-- `BuildQualityConsensus` on a path that consumes both reads: no panic; the two gapped rows, the
@@ -150,6 +257,44 @@ theorem consensus_columns (adj : UInt8 → UInt8) (a qa b qb : Bytes) (p : List 
     by simpa [l1] using c1, by simpa [l1] using c2, ?_⟩
   intro k hk
   exact c3 k (by omega)
+
+/-- **content of the gapped rows of `_BuildAlignment`** (was: only their lengths).  For a path consuming
+both reads, for the base rows (gap ' ') and the quality rows (gap 0): row A is read A seen through the
+A-positions of the path columns, row B likewise (`buildAlignment_rows`); restricted to the columns where
+the path shows a base of that read each row gives back the read, and the other columns hold the gap
+symbol.  The restriction is by the path mask: a real quality 0 is not a gap. -/
+theorem rows_content (a b : Bytes) (gap : UInt8) (p : List Int) (hp : consumes p a.length b.length) :
+    ∃ ra rb, buildAlignment a b gap p 0 0 = some (ra, rb) ∧
+      ra = (columns p 0 0).map (fun c => cellOf a gap c.1) ∧ rb = (columns p 0 0).map (fun c => cellOf b gap c.2) ∧
+      ra.length = ncols p ∧ rb.length = ncols p ∧
+      keep ra ((columns p 0 0).map (·.1)) = a ∧ keep rb ((columns p 0 0).map (·.2)) = b ∧
+      (∀ k, k < ncols p → ((columns p 0 0).getD k (none, none)).1 = none → ra.getD k 0 = gap) ∧
+      (∀ k, k < ncols p → ((columns p 0 0).getD k (none, none)).2 = none → rb.getD k 0 = gap) ∧
+      (columns p 0 0).filterMap (·.1) = List.range' 0 a.length ∧
+      (columns p 0 0).filterMap (·.2) = List.range' 0 b.length := by
+  obtain ⟨ra, rb, h, l1, l2, k1, k2, g1, g2⟩ := rows_restrict a b gap p hp
+  have hr := buildAlignment_rows a b gap p 0 0 hp.1 (by have := hp.2.1; omega) (by have := hp.2.2; omega)
+  rw [hr] at h
+  simp only [Option.some.injEq, Prod.mk.injEq] at h
+  refine ⟨ra, rb, by rw [hr, h.1, h.2], h.1.symm, h.2.symm, l1, l2, k1, k2, g1, g2, ?_, ?_⟩
+  · rw [columns_A p 0 0 hp.1, hp.2.1]
+  · rw [columns_B p 0 0 hp.1, hp.2.2]
+
+/-- **consensus correctness, column by column, about the real rows and the original reads**: column `k`
+holds `consBase` of (base, quality) of A at the position the path shows there — (' ', 0) when the path has
+a gap in A — and of (base, quality) of B.  With `consensus_higher_quality_wins` and `consensus_gap_column`:
+the higher-quality base wins, a single-read column keeps its base. -/
+theorem consensus_columns_real (adj : UInt8 → UInt8) (a qa b qb : Bytes) (p : List Int)
+    (hqa : qa.length = a.length) (hqb : qb.length = b.length) (hp : consumes p a.length b.length) :
+    ∃ c, consensus adj a qa b qb p = some c ∧ c.seq.length = ncols p ∧ c.qual.length = ncols p ∧
+      ∀ k, k < ncols p →
+        c.seq.getD k 0 =
+          consBase (cellOf a 32 ((columns p 0 0).getD k (none, none)).1) (cellOf qa 0 ((columns p 0 0).getD k (none, none)).1)
+                   (cellOf b 32 ((columns p 0 0).getD k (none, none)).2) (cellOf qb 0 ((columns p 0 0).getD k (none, none)).2) :=
+  consensus_column_real adj a qa b qb p hqa hqb hp
+
+/-- test on one input: the columns of `[-1, 2, 1, 0]` -/
+example : columns [-1, 2, 1, 0] 0 0 = [(some 0, none), (some 1, some 0), (some 2, some 1), (none, some 2)] := by decide
 
 /-- the column rule: the base with the strictly higher quality wins; equal qualities and equal bases
 keep the base; equal qualities and different bases give the IUPAC symbol of the union of the two
@@ -248,5 +393,45 @@ theorem errorfree_reassembly_partial (s : Nat → Nat → Int) (g : Int) (la lb 
     rw [hl] at hs
     simp only [Bool.false_eq_true, if_false] at hs
     exact huniq res.path hc (by rw [← hs]; exact oR tp htp)
+
+
+/-- The uniqueness hypothesis of `errorfree_reassembly_partial` is stated on run-length lists, and run-length
+lists are not canonical (`[0,0,-2,3]` and `[-2,3]` are the same alignment): that hypothesis can never be
+met.  Here uniqueness is **up to the alignment columns**: if every consuming path scoring at least as
+much as `tp` under the scheme that was kept has the columns of `tp`, the returned path has the columns of
+`tp`, and the consensus built along it is the consensus built along `tp` (`consensus_congr`). -/
+theorem errorfree_reassembly_columns (s : Nat → Nat → Int) (g : Int) (adj : UInt8 → UInt8) (a qa b qb : Bytes)
+    (ha : 0 < a.length) (hb : 0 < b.length) (hqa : qa.length = a.length) (hqb : qb.length = b.length)
+    (tp : List Int) (htp : consumes tp a.length b.length) :
+    ∃ res, peAlignExact s g a.length b.length = some res ∧
+      (res.isLeft = true → (∀ q, consumes q a.length b.length →
+          scoreOf s (cALeft g) (cBLeft g a.length) tp ≤ scoreOf s (cALeft g) (cBLeft g a.length) q →
+          columns q 0 0 = columns tp 0 0) →
+        columns res.path 0 0 = columns tp 0 0 ∧ consensus adj a qa b qb res.path = consensus adj a qa b qb tp) ∧
+      (res.isLeft = false → (∀ q, consumes q a.length b.length →
+          scoreOf s (cARight g b.length) (cBRight g) tp ≤ scoreOf s (cARight g b.length) (cBRight g) q →
+          columns q 0 0 = columns tp 0 0) →
+        columns res.path 0 0 = columns tp 0 0 ∧ consensus adj a qa b qb res.path = consensus adj a qa b qb tp) := by
+  obtain ⟨_, _, _, _, _, res, hres, hc, hs, oL, oR⟩ := pealign_exact s g a.length b.length ha hb
+  refine ⟨res, hres, ?_, ?_⟩
+  · intro hl huniq
+    rw [hl] at hs
+    simp only [if_true] at hs
+    have hcol := huniq res.path hc (by rw [← hs]; exact oL tp htp)
+    exact ⟨hcol, consensus_congr adj a qa b qb _ _ hqa hqb hc htp hcol⟩
+  · intro hl huniq
+    rw [hl] at hs
+    simp only [Bool.false_eq_true, if_false] at hs
+    have hcol := huniq res.path hc (by rw [← hs]; exact oR tp htp)
+    exact ⟨hcol, consensus_congr adj a qa b qb _ _ hqa hqb hc htp hcol⟩
+
+/-- the error-free claim is false for repeats, for every table that is positive on matches: two error-free
+reads `aaaa` / `aaaa` cut two bases apart from `aaaaaa` (true path `[-2,2,2,0]`, 6 columns) are aligned
+base to base (4 columns) — concrete refutation on the model, match +2, mismatch −1, gap −3 (the real-code
+witnesses are the `errorfree:exact-ambiguous-differs` cases of the harness) -/
+theorem errorfree_reassembly_repeat_false :
+    consumes [-2, 2, 2, 0] 4 4 ∧
+    (peAlignExact (fun _ _ => 2) (-3) 4 4).map (fun r => (r.score, r.path)) = some (8, [0, 4]) ∧
+    scoreOf (fun _ _ => 2) (cALeft (-3)) (cBLeft (-3) 4) [-2, 2, 2, 0] = 4 := by decide
 
 end ObiVerif.Props.C08
